@@ -85,6 +85,9 @@ struct Side {
     tb_required: Vec<VecDeque<i128>>,
     tb_optional: Vec<VecDeque<i128>>,
     blk: Option<Period>,
+    /// a packet that the current blocking would have held left exactly at the period's expiry
+    /// instant (tolerated, provided the period does end there)
+    left_at_expiry: Option<i128>,
     /// credits for bypass-flagged packets
     credit_bypass: i64,
     credit_bypass_replace: i64,
@@ -115,6 +118,7 @@ impl Monitor {
                 tb_required: vec![VecDeque::new(); n],
                 tb_optional: vec![VecDeque::new(); n],
                 blk: None,
+                left_at_expiry: None,
                 credit_bypass: 0,
                 credit_bypass_replace: 0,
                 last_update_time: vec![None; n],
@@ -278,6 +282,17 @@ impl Monitor {
                             });
                         }
                         Some(mut per) => {
+                            if per.expiry == t && new_expiry > t && self.sides[s].left_at_expiry == Some(t) {
+                                // neither order of the two things due at t explains this: had the
+                                // blocking ended first, its BlockingEnd would have been reported
+                                // before this action was carried out; had the action come first,
+                                // the blocking never lapsed and the packets could not leave
+                                self.v(
+                                    "C16",
+                                    "packet-left-at-the-instant-a-blocking-was-extended-without-ending",
+                                    format!("{who}: packets left at {t} ns, the expiry of the blocking that began at {} ns, no BlockingEnd was reported, and a BlockOutgoing action carried out at {t} ns then extended that same blocking to {new_expiry} ns", per.started),
+                                );
+                            }
                             if p.replace || new_expiry > per.expiry {
                                 self.stats.period_updates += 1;
                                 if per.permission != p.bypass {
@@ -442,6 +457,9 @@ impl Monitor {
                     }
                 }
                 if let Some(p) = self.sides[s].blk {
+                    if t == p.expiry && !(r.bypass && p.permission) {
+                        self.sides[s].left_at_expiry = Some(t);
+                    }
                     if t < p.expiry {
                         self.stats.tunnel_sent_inside_period += 1;
                         if !r.bypass {
